@@ -3,11 +3,12 @@ import itertools, json, random
 import common as C
 import c13
 
-EXTRA_VO = ["Exec/RunC13.vo", "Exec/RunPres.vo"]
+EXTRA_VO = ["Exec/RunC13.vo", "Exec/RunPres.vo", "Exec/RunAcc.vo"]
 TRUSTED_BASE = [
     "Coq 8.16.1 kernel; Print Assumptions of every C06 theorem: closed under the global context",
     "PARTIAL: theorems = completeness, invalid-handle rejection and special soundness of the VB20 zero-knowledge membership sub-protocol (coq/Model/AccProof.v of src/knox/accumulator/vb20/proof.rs:104-335, src/verifier/revocation.rs) composed with C13 (bookkeeping = accumulator, fresh / stale handles) and C14 (public updates); that no efficiently computable handle exists for a revoked identifier is the accumulator's q-SDH assumption, assumed",
     "expected verdicts of executed cases are derived from the registry model's trace (coq/Model/Registry.v evaluated by coqc): a handle obtained at removed-list R presents successfully at removed-list R' iff R = R' (stale), or iff the owner is not in R' minus R and every revocation in between was a single identifier (single-step public update), never when borrowed or when the registry value is used as handle",
+    "Model/AccProof.v is tied to proof.rs by execution: MembershipProof::finalize on parameters with known logs, arbitrary proof fields and challenges, hashes exactly the G1 / GT elements the model's acc_finalize predicts (harness op f_accfin; transcript labels of get_bytes_for_challenge are repeated in the harness); the committing side uses the OS random generator and is tied through acceptance of honest proofs only",
     "correspondence: harness/src/ops_revoc.rs (Issuer + Presentation::create/verify with a revocation statement against the current registry value for every holder, every handle it can derive, after every operation), lib/c06.py",
 ]
 ASSUMPTIONS = ["q-SDH for the accumulator; unforgeability (C01) links the presented identifier to the signed one",
@@ -28,6 +29,15 @@ def gen_ops(rng, nh, ln):
         else:
             ops.append({"k": "refresh", "id": rng.randrange(nh)})
     return ops
+
+
+ACC_HEADER = """From Coq Require Import ZArith List String.
+From ACV Require Import Exec.RunAcc.
+Import ListNotations. Open Scope Z_scope."""
+
+
+def c13_R():
+    return 0x73eda753299d7d483339d80809a1d80553bda402fffe5bfeffffffff00000001
 
 
 def explore(ctx):
@@ -127,6 +137,49 @@ def explore(ctx):
         if len(samples) < 3:
             samples.append({"ops": c["ops"], "suite": c["suite"], "steps": [{"r": s["r"], "pres": s["pres"]} for s in r["steps"]][:4]})
     failures.sort(key=lambda f: len(f["case"].get("ops", [])))
+    # ---- the accumulator proof model against MembershipProof::finalize: parameters with known logs, arbitrary proof
+    # fields and challenge; the model's eight exponents must reproduce what the implementation hashes
+    frng = random.Random(seed + 66)
+    R = c13_R()
+    fcases = []
+    for i in range(240 if tier == "thorough" else 40):
+        vals = {k: frng.randrange(1, R) for k in ("x", "y", "z", "alpha", "V", "ec", "ts", "tr", "ss", "sr", "sds", "sdr", "sy", "c")}
+        if i % 8 == 1:
+            vals["c"] = 0
+        if i % 8 == 2:
+            vals["sy"] = 0
+        if i % 8 == 3:
+            vals["ss"] = vals["sr"] = 0
+        if i % 8 == 4:
+            vals["sds"], vals["sdr"] = R - 1, 1
+        fcases.append(vals)
+    order = ["x", "y", "z", "alpha", "V", "ec", "ts", "tr", "ss", "sr", "sds", "sdr", "sy", "c"]
+    fmodel = C.run_model("C06", ACC_HEADER, ["mkF " + " ".join(str(v[k]) for k in order) for v in fcases], runner="run_fins", shard_size=40, tag="accfin")
+    fops = []
+    for v, m in zip(fcases, fmodel):
+        exps = m.strip().split(" ")
+        fops.append(dict({"op": "f_accfin", "expect": exps}, **{k: "%064x" % v[k] for k in order}))
+    fimpl = C.run_exec_parallel(fops, nproc=16)
+    hist["accfin"] = {"same": 0, "different": 0}
+    for v, op, r in zip(fcases, fops, fimpl):
+        n_pres += 1
+        if r.get("r") != "ok":
+            failures.append({"class": None, "witness": False, "text": f"harness failure (f_accfin) {json.dumps(r)[:200]}", "case": op})
+            continue
+        hist["accfin"]["same" if r["same"] else "different"] += 1
+        if not r["same"]:
+            failures.append({"class": None, "witness": False,
+                             "text": "correspondence broken: MembershipProof::finalize hashes other values than the model's acc_finalize (Model/AccProof.v) predicts", "case": op})
+        # a broken wiring would also pass if the comparison itself were vacuous: perturb one expected exponent, it must differ
+    neg = []
+    for k, op in enumerate(fops[:16]):
+        e = list(op["expect"])
+        j = k % 8
+        e[j] = "%064x" % ((int(e[j], 16) + 1) % R)
+        neg.append(dict(op, expect=e))
+    for op, r in zip(neg, C.run_exec_parallel(neg, nproc=16)):
+        if r.get("r") != "ok" or r.get("same"):
+            failures.append({"class": None, "witness": False, "text": "f_accfin does not distinguish a perturbed exponent (the comparison is vacuous)", "case": op})
     # ---- a deviating holder at the presentation layer: the accumulator sub-protocol of the revocation statement run on
     # ANOTHER holder's identifier and valid handle (what a revoked holder with an accomplice would do); the verifier model
     # (Model/Pres.v, theorem C06_accept_revocation_link) and Presentation::verify must both refuse
@@ -144,7 +197,7 @@ def explore(ctx):
     return {
         "evaluations": n_pres,
         "distinct_nontrivial": len(distinct),
-        "rule": "cases = issuer histories over 2..4 holders (issue and blind issue, re-issue through either entry point, single and batch revocation incl. failing batches, refresh); after every operation every holder with a credential presents with a revocation statement against the current registry value using its latest handle, its oldest handle, the handle it maintained by single-step public updates, its first handle brought up to date by one multi-batch update over the published batch coefficients, another holder's handle and the registry value itself; plus an external holder that runs the revocation statement's accumulator sub-protocol on another holder's identifier and handle (compared with the Coq verifier model); the verdict of Presentation::create + verify is compared with the verdict derived from the Coq registry model's trace; distinct by (suite, history prefix, holder, handle kind)",
+        "rule": "cases = issuer histories over 2..4 holders (issue and blind issue, re-issue through either entry point, single and batch revocation incl. failing batches, refresh); after every operation every holder with a credential presents with a revocation statement against the current registry value using its latest handle, its oldest handle, the handle it maintained by single-step public updates, its first handle brought up to date by one multi-batch update over the published batch coefficients, another holder's handle and the registry value itself; plus MembershipProof::finalize against the Coq model of the accumulator proof on random parameters, proofs and challenges; plus an external holder that runs the revocation statement's accumulator sub-protocol on another holder's identifier and handle (compared with the Coq verifier model); the verdict of Presentation::create + verify is compared with the verdict derived from the Coq registry model's trace; distinct by (suite, history prefix, holder, handle kind)",
         "samples": samples,
         "histograms": hist,
         "failures": failures,
